@@ -132,17 +132,18 @@ Example C15_ang_generic_names_nonvacuous :
                       "unknown3"; "unknown4"; "unknown5"].
 Proof. exact generic_names_10_12. Qed.
 
-(* symmetry codes *)
+(* symmetry codes: every EDAX TSL code, the dihexagonal 62 included *)
 Theorem C15_ang_symmetry_codes :
-  map resolve_pg ["43"; "23"; "6"; "32"; "3"; "42"; "4"; "22"; "2"; "20"; "1"; "m3m"] =
-  map Some ["432"; "23"; "6"; "32"; "3"; "422"; "4"; "222"; "2/m"; "121"; "1"; "m-3m"].
+  map resolve_pg ["43"; "23"; "62"; "6"; "32"; "3"; "42"; "4"; "22"; "2"; "20"; "1"; "m3m"] =
+  map Some ["432"; "23"; "622"; "6"; "32"; "3"; "422"; "4"; "222"; "2/m"; "121"; "1"; "m-3m"].
 Proof. exact tsl_codes_resolve. Qed.
 Print Assumptions C15_ang_symmetry_codes.
 
-Theorem C15_ang_symmetry62_refuted : forall (T : Type) (Op : Ops T),
-  exists f : angfile (T:=T), parse_ang Op (render_hdr f) (map (render_pt (T:=T)) (af_pts f)) = Err EValue.
-Proof. intros T Op. eexists. exact (ang_sym62_raises Op). Qed.
-Print Assumptions C15_ang_symmetry62_refuted.
+Example C15_ang_symmetry62_nonvacuous : forall (T : Type) (Op : Ops T),
+  exists m, parse_ang Op (render_hdr (ang_wit Op AAstar "62" [z0 Op]))
+                      (map (render_pt (T:=T)) (af_pts (ang_wit Op AAstar "62" [z0 Op]))) = Ok m
+            /\ map (fun kp => (fst kp, ph_pg (snd kp))) (xm_phases m) = [(1%Z, Some "622")].
+Proof. exact @ang_sym62_loads. Qed.
 
 Example C15_ang_symmetry43_nonvacuous : forall (T : Type) (Op : Ops T),
   exists m, parse_ang Op (render_hdr (ang_wit Op AAstar "43" [z0 Op]))
@@ -167,7 +168,7 @@ Theorem C15_ctf_header : forall (T : Type) (f : ctffile (T:=T)), take_header (re
 Proof. exact @header_of_render. Qed.
 Print Assumptions C15_ctf_header.
 
-Theorem C15_ctf_phases : forall (T : Type) (f : ctffile (T:=T)) (pgs : list string),
+Theorem C15_ctf_phases : forall (T : Type) (f : ctffile (T:=T)) (pgs : list (option string)),
   wf_misc f -> map laue_pg (cf_phases f) = map Some pgs ->
   ctf_phases (chdr_body f) =
   Ok (mkCH (map cp_name (cf_phases f)) pgs (map sg_opt (cf_phases f)) (map cp_lat (cf_phases f))).
@@ -176,11 +177,11 @@ Print Assumptions C15_ctf_phases.
 
 (* Oxford / Bruker / MTEX: degrees, phase 0 -> -1, um, names, columns after BS ignored *)
 Theorem C15_ctf_oxford_bruker_mtex : forall (T : Type) (Op : Ops T) (f : ctffile (T:=T)) (p0 : cpoint (T:=T)) pts
-    (pgs : list string) (stops : list Z),
+    (pgs : list (option string)),
   wf_misc f -> map laue_pg (cf_phases f) = map Some pgs -> cf_pts f = p0 :: pts ->
   String.eqb (ctf_vendor (chdr_body f)) "emsoft" = false ->
   String.eqb (ctf_vendor (chdr_body f)) "astar" = false ->
-  parse_ctf Op (render_chdr f) (map (render_cpt (T:=T)) (cf_pts f)) stops =
+  parse_ctf Op (render_chdr f) (map (render_cpt (T:=T)) (cf_pts f)) =
   bind (ctf_phaselist Op f pgs) (fun pl =>
     Ok (crystal_map Op 1 (map (eu_deg2rad Op) (map c_eu (cf_pts f))) (map c_x (cf_pts f)) (map c_y (cf_pts f))
           (map cpid (cf_pts f))
@@ -190,10 +191,10 @@ Proof. exact @parse_ctf_plain. Qed.
 Print Assumptions C15_ctf_oxford_bruker_mtex.
 
 Theorem C15_ctf_emsoft : forall (T : Type) (Op : Ops T) (f : ctffile (T:=T)) (p0 : cpoint (T:=T)) pts
-    (pgs : list string) (stops : list Z),
+    (pgs : list (option string)),
   wf_misc f -> map laue_pg (cf_phases f) = map Some pgs -> cf_pts f = p0 :: pts ->
   ctf_vendor (chdr_body f) = "emsoft" ->
-  parse_ctf Op (render_chdr f) (map (render_cpt (T:=T)) (cf_pts f)) stops =
+  parse_ctf Op (render_chdr f) (map (render_cpt (T:=T)) (cf_pts f)) =
   bind (ctf_phaselist Op f pgs) (fun pl =>
     Ok (crystal_map Op 1 (map (eu_deg2rad Op) (map c_eu (cf_pts f))) (map c_x (cf_pts f)) (map c_y (cf_pts f))
           (map cpid (cf_pts f))
@@ -202,59 +203,81 @@ Theorem C15_ctf_emsoft : forall (T : Type) (Op : Ops T) (f : ctffile (T:=T)) (p0
 Proof. exact @parse_ctf_emsoft. Qed.
 Print Assumptions C15_ctf_emsoft.
 
-(* FULL clause for ASTAR .ctf: coordinates are those of the header grid.  Proved: the shape test of
-   _fix_astar_coords can never succeed on a regular grid (so the header grid is always used);
-   the reader as a whole on ASTAR files is left to the correspondence. *)
-Theorem C15_ctf_astar_regrid_partial : forall s0 s1 nx ny : Z,
-  ((s0 + 1 =? ny)%Z && (s1 + 1 =? nx)%Z) = true -> s0 = nx -> s1 = ny -> False.
-Proof. exact astar_always_regrid. Qed.
-Print Assumptions C15_ctf_astar_regrid_partial.
+(* ASTAR: every field as for Oxford; the coordinates are those of the header grid
+   (c * XStep, r * YStep, row-major, for YCells x XCells points) for ANY grid -- single rows and
+   single columns included -- and whatever the four-decimal coordinate columns contain *)
+Theorem C15_ctf_astar : forall (T : Type) (Op : Ops T) (f : ctffile (T:=T)) (p0 : cpoint (T:=T)) pts
+    (pgs : list (option string)),
+  wf_misc f -> map laue_pg (cf_phases f) = map Some pgs -> cf_pts f = p0 :: pts ->
+  ctf_vendor (chdr_body f) = "astar" ->
+  parse_ctf Op (render_chdr f) (map (render_cpt (T:=T)) (cf_pts f)) =
+  bind (ctf_phaselist Op f pgs) (fun pl =>
+    Ok (crystal_map Op 1 (map (eu_deg2rad Op) (map c_eu (cf_pts f)))
+          (fst (grid_coords Op (cf_nrows f) (cf_ncols f) (cf_dx f) (cf_dy f)))
+          (snd (grid_coords Op (cf_nrows f) (cf_ncols f) (cf_dx f) (cf_dy f)))
+          (map cpid (cf_pts f))
+          [("bands", cv c_bands (cf_pts f)); ("error", cv c_err (cf_pts f)); ("MAD", cv c_mad (cf_pts f));
+           ("BC", cv c_bc (cf_pts f)); ("BS", cv c_bs (cf_pts f))] "um" pl false)).
+Proof. exact @parse_ctf_astar. Qed.
+Print Assumptions C15_ctf_astar.
 
-Theorem C15_ctf_astar_line_refuted : forall (T : Type) (Op : Ops T),
-  exists (f : ctffile (T:=T)) (stops : list Z), cf_nrows f = 1%nat /\
-    parse_ctf Op (render_chdr f) (map (render_cpt (T:=T)) (cf_pts f)) stops = Err EIndex.
-Proof. intros T Op. eexists. exists [2%Z]. split; [|exact (ctf_astar_line_raises Op)]. reflexivity. Qed.
-Print Assumptions C15_ctf_astar_line_refuted.
+Example C15_ctf_astar_line_nonvacuous : forall (T : Type) (Op : Ops T),
+  exists m, parse_ctf Op (render_chdr (ctf_wit Op CAstar 11 225 1 2 [cpt0 Op (z0 Op) (z0 Op); cpt0 Op (z0 Op) (z0 Op)]))
+               (map (render_cpt (T:=T)) [cpt0 Op (z0 Op) (z0 Op); cpt0 Op (z0 Op) (z0 Op)]) = Ok m
+            /\ xm_x m = [o_mul Op (o_ofZ Op 0) (o_ofZ Op 1); o_mul Op (o_ofZ Op 1) (o_ofZ Op 1)]
+            /\ xm_y m = [o_mul Op (o_ofZ Op 0) (o_ofZ Op 1); o_mul Op (o_ofZ Op 0) (o_ofZ Op 1)]
+            /\ xm_pid m = [1%Z; 1%Z].
+Proof. exact @ctf_astar_line_loads. Qed.
 
 (* Laue classes and space groups *)
 Theorem C15_ctf_laue_classes :
   forallb (fun k => match py_index ctf_laue_ids (k - 1) with
                     | Some l => match resolve_pg l with Some v => String.eqb v l | None => false end
                     | None => false end)
-          [1; 2; 3; 4; 5; 6; 7; 8; 9; 11]%Z = true.
+          [1; 2; 3; 4; 5; 6; 7; 8; 9; 10; 11]%Z = true.
 Proof. exact laue_classes_resolve. Qed.
 Print Assumptions C15_ctf_laue_classes.
 
-Theorem C15_ctf_laue10_refuted : forall (T : Type) (Op : Ops T),
-  exists (f : ctffile (T:=T)), map cp_laue (cf_phases f) = [10%Z] /\
-    parse_ctf Op (render_chdr f) (map (render_cpt (T:=T)) (cf_pts f)) [] = Err EValue.
-Proof. intros T Op. eexists. split; [|exact (ctf_laue10_raises Op)]. reflexivity. Qed.
-Print Assumptions C15_ctf_laue10_refuted.
+Example C15_ctf_laue10_nonvacuous : forall (T : Type) (Op : Ops T),
+  exists m, parse_ctf Op (render_chdr (ctf_wit Op COxford 10 205 1 2 [cpt0 Op (z0 Op) (z0 Op); cpt0 Op (o_ofZ Op 1) (z0 Op)]))
+               (map (render_cpt (T:=T)) [cpt0 Op (z0 Op) (z0 Op); cpt0 Op (o_ofZ Op 1) (z0 Op)]) = Ok m
+            /\ map (fun kp => (fst kp, ph_sg (snd kp), ph_pg (snd kp))) (xm_phases m) = [(1%Z, Some 205%Z, Some "m-3")].
+Proof. exact @ctf_laue10_loads. Qed.
+
+Example C15_ctf_laue10_without_spacegroup_nonvacuous : forall (T : Type) (Op : Ops T),
+  exists m, parse_ctf Op (render_chdr (ctf_wit Op COxford 10 0 1 2 [cpt0 Op (z0 Op) (z0 Op); cpt0 Op (o_ofZ Op 1) (z0 Op)]))
+               (map (render_cpt (T:=T)) [cpt0 Op (z0 Op) (z0 Op); cpt0 Op (o_ofZ Op 1) (z0 Op)]) = Ok m
+            /\ map (fun kp => (fst kp, ph_sg (snd kp), ph_pg (snd kp))) (xm_phases m) = [(1%Z, None, Some "m-3")].
+Proof. exact @ctf_laue10_nosg_loads. Qed.
 
 Example C15_ctf_laue11_nonvacuous : forall (T : Type) (Op : Ops T),
   exists m, parse_ctf Op (render_chdr (ctf_wit Op COxford 11 225 1 2 [cpt0 Op (z0 Op) (z0 Op); cpt0 Op (o_ofZ Op 1) (z0 Op)]))
-               (map (render_cpt (T:=T)) [cpt0 Op (z0 Op) (z0 Op); cpt0 Op (o_ofZ Op 1) (z0 Op)]) [] = Ok m
+               (map (render_cpt (T:=T)) [cpt0 Op (z0 Op) (z0 Op); cpt0 Op (o_ofZ Op 1) (z0 Op)]) = Ok m
             /\ map (fun kp => (fst kp, ph_sg (snd kp), ph_pg (snd kp))) (xm_phases m) = [(1%Z, Some 225%Z, Some "m-3m")].
 Proof. exact @ctf_laue11_loads. Qed.
 
-(* space group whose point group IS the Laue class: kept; otherwise dropped *)
-Theorem C15_ctf_spacegroup_kept : forall (T : Type) (name l : string) (n : Z) (lat : list T),
-  sg_valid n = true -> resolve_pg l = Some l -> sg_pg n = l ->
-  mk_phase name (Some n) (Some l) lat = Ok (mkPhase name (Some n) (Some l) lat).
-Proof. exact @phase_ctf_kept. Qed.
+(* EVERY valid space group of the header is kept and determines the point group -- centrosymmetric
+   or not, and whatever the Laue class field says: the reader hands Phase() the space group alone *)
+Theorem C15_ctf_spacegroup_kept : forall (T : Type) (name : string) (laue n : Z) (lat : list T),
+  sg_valid n = true ->
+  ctf_point_group laue n = Some None /\
+  mk_phase name (Some n) None lat = Ok (mkPhase name (Some n) (Some (sg_pg n)) lat).
+Proof. exact @phase_ctf_sg. Qed.
 Print Assumptions C15_ctf_spacegroup_kept.
 
-Theorem C15_ctf_spacegroup_dropped_refuted : forall (T : Type) (name l : string) (n : Z) (lat : list T),
-  sg_valid n = true -> resolve_pg l = Some l -> sg_pg n <> l ->
-  mk_phase name (Some n) (Some l) lat = Ok (mkPhase name None (Some l) lat).
-Proof. exact @phase_ctf_dropped. Qed.
-Print Assumptions C15_ctf_spacegroup_dropped_refuted.
+(* no space group in the header (0): the point group is the Laue class *)
+Theorem C15_ctf_laue_without_spacegroup : forall (T : Type) (name l : string) (laue : Z) (lat : list T),
+  py_index ctf_laue_ids (laue - 1) = Some l -> resolve_pg l = Some l ->
+  ctf_point_group laue 0 = Some (Some l) /\
+  mk_phase name None (Some l) lat = Ok (mkPhase name None (Some l) lat).
+Proof. exact @phase_ctf_laue_nosg. Qed.
+Print Assumptions C15_ctf_laue_without_spacegroup.
 
-Example C15_ctf_spacegroup_dropped_nonvacuous : forall (T : Type) (Op : Ops T),
+Example C15_ctf_spacegroup_noncentro_nonvacuous : forall (T : Type) (Op : Ops T),
   exists m, parse_ctf Op (render_chdr (ctf_wit Op COxford 11 216 1 2 [cpt0 Op (z0 Op) (z0 Op); cpt0 Op (o_ofZ Op 1) (z0 Op)]))
-               (map (render_cpt (T:=T)) [cpt0 Op (z0 Op) (z0 Op); cpt0 Op (o_ofZ Op 1) (z0 Op)]) [] = Ok m
-            /\ map (fun kp => (fst kp, ph_sg (snd kp), ph_pg (snd kp))) (xm_phases m) = [(1%Z, None, Some "m-3m")].
-Proof. exact @ctf_sg216_dropped. Qed.
+               (map (render_cpt (T:=T)) [cpt0 Op (z0 Op) (z0 Op); cpt0 Op (o_ofZ Op 1) (z0 Op)]) = Ok m
+            /\ map (fun kp => (fst kp, ph_sg (snd kp), ph_pg (snd kp))) (xm_phases m) = [(1%Z, Some 216%Z, Some "-43m")].
+Proof. exact @ctf_sg216_kept. Qed.
 
 (* ============================================================ phases in the map *)
 Theorem C15_phase_from_code : forall (T : Type) (name s v : string) (lat : list T),
@@ -283,20 +306,26 @@ Proof. exact @reconcile_all_used_ni. Qed.
 Print Assumptions C15_phases_all_used_not_indexed_partial.
 
 (* ==================================================================== h5ebsd *)
-(* Bruker: y is never re-ordered -- for every file the map's y is Y SAMPLE in FILE order *)
-Theorem C15_bruker_y_file_order : forall (T : Type) (Op : Ops T) (t : btok (T:=T)) (m : xmap (T:=T)),
+(* Bruker: for EVERY dataset record the map's y, x and phase ids are Y SAMPLE, X SAMPLE (minus their
+   minimum) and Phase (0 -> -1) put into map order by one and the same permutation (x then reversed) *)
+Theorem C15_bruker_same_order : forall (T : Type) (Op : Ops T) (t : btok (T:=T)) (m : xmap (T:=T)),
   parse_bruker Op t = Ok m ->
   exists props, bruker_props bruker_properties (bt_data t) = Ok props /\
-    xm_y m = sub_min Op (match aget "YSAMPLE" props with Some v => v | None => [] end).
-Proof. exact @bruker_y_is_file_order. Qed.
-Print Assumptions C15_bruker_y_file_order.
+    xm_y m = reorder (o_ofZ Op 0) (bruker_order t)
+               (sub_min Op (match aget "YSAMPLE" props with Some v => v | None => [] end)) /\
+    xm_x m = rev (reorder (o_ofZ Op 0) (bruker_order t)
+               (sub_min Op (match aget "XSAMPLE" props with Some v => v | None => [] end))) /\
+    xm_pid m = reorder 0%Z (bruker_order t) (map (fun p => if (p =? 0)%Z then (-1)%Z else p) (bt_phase t)).
+Proof. exact @bruker_same_order. Qed.
+Print Assumptions C15_bruker_same_order.
 
-Theorem C15_bruker_rows_refuted : forall (T : Type) (Op : Ops T) (dy y0 : T),
+(* rows stored in reverse: phase ids AND y come back in grid order *)
+Theorem C15_bruker_rows : forall (T : Type) (Op : Ops T) (dy y0 : T),
   exists m, parse_bruker Op (render_bruker Op (bruker_wit Op dy y0)) = Ok m /\
     xm_pid m = [1%Z; 2%Z] /\
-    xm_y m = sub_min Op [o_add Op y0 (o_mul Op (o_ofZ Op 1) dy); o_add Op y0 (o_mul Op (o_ofZ Op 0) dy)].
+    xm_y m = rev (sub_min Op [o_add Op y0 (o_mul Op (o_ofZ Op 1) dy); o_add Op y0 (o_mul Op (o_ofZ Op 0) dy)]).
 Proof. exact @bruker_rows_witness. Qed.
-Print Assumptions C15_bruker_rows_refuted.
+Print Assumptions C15_bruker_rows.
 
 Example C15_bruker_in_order_nonvacuous : forall (T : Type) (Op : Ops T) (dy y0 : T),
   exists m, parse_bruker Op (render_bruker Op
